@@ -20,7 +20,8 @@ B = h.bounds(
     thorough=dict(PRE=2, NACC=7, NA=5, FLOW=3, BUF=4, SA=2, SB=3, SC=2, VN=3),
 )
 PRES = ["callable", "Variable", "Filter(even)", "Slice(a, a+b, c)", "RunIf(positive, callable)",
-        "RunIf(positive, callable, Slice(1)) - inner sequence depends on the flow it is given"]
+        "RunIf(positive, callable, Slice(1)) - inner sequence depends on the flow it is given",
+        "Filter(Selector(predicate raising for negative data, raise_on_error=False))"]
 ACCS = ["Sum", "Mean", "FillCompute(Count())", "StoreFilled", "Histogram([0,1,2])",
         "VarianceMeanCount (values from -2..2)", "Vectorize(Sum, dim=2)"]
 BOUNDS = dict(vars(B), pres=PRES, accs=ACCS, meaning="chains pre* acc post? with <= PRE pre-elements, "
@@ -61,6 +62,13 @@ def _positive(v):
     return True if get_data_context(v)[0] > 0 else False
 
 
+def _positive_or_raise(v):
+    d = get_data_context(v)[0]
+    if d < 0:
+        raise ValueError("negative")
+    return True if d > 0 else False
+
+
 def tag(v):
     return ("post", v)
 
@@ -80,6 +88,9 @@ def make_pre(kind, a, b, c):
         return Slice(a, a + b, c)
     if kind == 5:
         return RunIf(_positive, add3, Slice(1))
+    if kind == 6:
+        # an exception inside the selector counts as "not selected"
+        return Filter(lena.flow.Selector(_positive_or_raise, raise_on_error=False))
     return RunIf(_positive, add3)
 
 
@@ -151,12 +162,12 @@ def _bufsize(bs):
     return bs
 
 
-def _key3(p0, acc, b):
+def _key3(p0, acc, a, b, post):
     """Shard key: (pre kind, accumulator); chains starting with a Slice (p0 == 3,
-    by far the most paths) are split further by the slice length b."""
+    by far the most paths) are split further by the slice start a, length b and the post element."""
     ai = acc - (1 if acc > 1 else 0) - (1 if acc > 5 else 0)
     if p0 == 3:
-        return 5 * B.NA + ai * (B.SB + 1) + b
+        return 6 * B.NA + ((ai * (B.SB + 1) + b) * (B.SA + 1) + a) * 2 + (1 if post else 0)
     return (p0 if p0 < 3 else p0 - 1) * B.NA + ai
 
 
@@ -164,13 +175,13 @@ def check_three_drivers(npre: int, p0: int, p1: int, a: int, b: int, c: int, acc
                         post: bool, bs: int, xs: List[int]) -> bool:
     """
     pre: 0 <= npre <= B.PRE
-    pre: 0 <= p0 <= 5 and 0 <= p1 <= 5
+    pre: 0 <= p0 <= 6 and 0 <= p1 <= 6
     pre: 0 <= a <= B.SA and 0 <= b <= B.SB and 1 <= c <= B.SC
     pre: 0 <= acc < B.NACC and acc != 5 and acc != 1
     pre: 1 <= bs <= B.BUF + 2
     pre: len(xs) <= B.FLOW
     pre: npre < 2 or p0 == 3 or p1 == 3
-    pre: h.in_shard(_key3(p0, acc, b))
+    pre: h.in_shard(_key3(p0, acc, a, b, post))
     post: _
     """
     pres = [p0, p1][:npre]
@@ -213,10 +224,10 @@ def check_variance_drivers(npre: int, p0: int, a: int, b: int, n: int, i0: int, 
 def check_fill_seq(npre: int, p0: int, p1: int, a: int, b: int, c: int, xs: List[int]) -> bool:
     """
     pre: 0 <= npre <= 2
-    pre: 0 <= p0 <= 5 and 0 <= p1 <= 5
+    pre: 0 <= p0 <= 6 and 0 <= p1 <= 6
     pre: 0 <= a <= B.SA and 0 <= b <= B.SB and 1 <= c <= B.SC
     pre: len(xs) <= B.FLOW + 1
-    pre: h.in_shard(p0 + 6 * (p1 % 2))
+    pre: h.in_shard(p0 + 7 * (p1 % 2))
     post: _
     """
     # an explicit FillSeq fills exactly what the same elements yield when run
@@ -388,7 +399,7 @@ def check_adapters(adapter: int, ek: int, name: int, x: int) -> bool:
 
 
 CONDITIONS = [
-    dict(fn="check_three_drivers", shards=(32, 45), budget=(150, 1500),
+    dict(fn="check_three_drivers", shards=(72, 150), budget=(150, 1200),
          smoke=["check_three_drivers(1, 3, 0, 1, 2, 1, 0, True, 2, [1, 2, 3])",
                 "check_three_drivers(1, 1, 0, 0, 0, 1, 2, False, 1, [4, 5])",
                 "check_three_drivers(0, 0, 0, 0, 0, 1, 4, True, 3, [0, 2])",
@@ -396,7 +407,7 @@ CONDITIONS = [
                 "check_three_drivers(1, 5, 0, 0, 0, 1, 3, False, 1, [4, 5])"]),
     dict(fn="check_variance_drivers", shards=(10, 10), budget=(200, 900),
          smoke=["check_variance_drivers(1, 2, 0, 0, 3, 0, 2, 4, 1, False)", "check_variance_drivers(0, 0, 0, 0, 0, 0, 2, 4, 1, True)"]),
-    dict(fn="check_fill_seq", shards=(12, 12), budget=(70, 900),
+    dict(fn="check_fill_seq", shards=(14, 14), budget=(90, 900),
          smoke=["check_fill_seq(2, 3, 2, 1, 2, 1, [1, 2, 3])"]),
     dict(fn="check_adapters", budget=(70, 600),
          smoke=["check_adapters(1, 2, 0, 5)", "check_adapters(2, 6, 0, 5)", "check_adapters(3, 5, 1, 5)",
